@@ -443,12 +443,17 @@ func skeletonOf(ops []Op) string {
 	return sb.String()
 }
 
+func init() { props["C09"] = runC09 }
+
 func runC09(run *Run) {
 	nCases, maxOps := 3000, 40
 	if run.Tier == "thorough" {
 		nCases, maxOps = 60000, 120
 	}
 	run.Rule = "random table histories (state-aware keys: array window, 0, negatives, >=MaxArrayIndex, 2^53, fractions, strings incl. \"1\", booleans, tables; Go API + Lua-level ops; traversals with interleaved clear/overwrite) executed on the real LTable and replayed on the Lean Model (exact) and Spec (finite map, border, traversal completeness); distinct = distinct op-kind/key-class skeletons with >= 1 store and >= 1 observation"
+	run.Assume = []string{"Go map semantics (lookup/insert/delete by ==; iteration order unspecified) — maps are modelled as association lists and ForEach's hash part is compared as a set",
+		"number keys are canonicalised by the harness (integral float64 → its integer; -0.0 → 0) before they reach the model",
+		"the array part is not driven to MaxArrayIndex-1 elements (1 GiB) in the default configuration; the boundary is exercised with the exported tunable lowered"}
 	root := NewRng(uint64(run.Seed))
 	var cases []Case
 	corpus := loadCorpus("C09")
